@@ -15,7 +15,7 @@ BOUNDS = {"hours_per_series": "N=2", "skeletons": "T1,T2,T3,T4,T5,T7,T9,TX; buil
           "inputs": "every numeric input compared with the value given, after computing and after recomputing (durations symbolic, not whole hours)",
           "reads": "explain(), str(), to_json, system_to_json (with/without calculated attributes), the *_sum_over_period "
                    "and total_* views"}
-ASSUMPTIONS = ["plotting functions (matplotlib/plotly) are outside the encoding", "physical comparison: an in-place "
+ASSUMPTIONS = ["plotting: the matplotlib plots of hourly values are exercised on fully concrete systems (no symbolic input can cross the C float boundary of matplotlib); the plotly/HTML views of System are outside the encoding", "physical comparison: an in-place "
                "unit conversion is not a change"]
 
 
@@ -174,7 +174,75 @@ def h_fixed_point_builders(ctx, kind, choice, mode):
         check("after str()/explain()/to_json/system_to_json on everything")
 
 
-HARNESSES = {"fixed_point": h_fixed_point, "fixed_point_builders": h_fixed_point_builders}
+def h_plots(ctx, skeleton, n=4, with_simulation=True):
+    """plotting (matplotlib, headless) never changes a value: every hourly calculated attribute is plotted, plain and
+    cumulative, without and with a dated simulation (baseline and simulated twins).  All inputs are concrete: the
+    matplotlib layer converts values to C floats, which a symbolic value cannot go through."""
+    import os
+    os.environ.setdefault("MPLBACKEND", "Agg")
+    import matplotlib
+    matplotlib.use("Agg", force=True)
+    import matplotlib.pyplot as plt
+    from datetime import timedelta
+    from efootprint.abstract_modeling_classes.explainable_objects import ExplainableHourlyQuantities
+    from efootprint.abstract_modeling_classes.modeling_update import ModelingUpdate
+    from efootprint.abstract_modeling_classes.source_objects import SourceValue
+    from efootprint.constants.units import u
+    spec = M.SKELETONS[skeleton](n)
+    env = M.Env(ctx)
+    objs = M.build(spec, env)
+    gt = gt_sets(spec)
+    names = [x for x in (gt["patterns"] + gt["jobs"] + gt["networks"] + gt["servers"] + gt["storages"] + ["system"])]
+    live = {k: v for k, v in objs.items() if k in names}
+
+    def hourly_values():
+        out = []
+        for nm in names:
+            o = objs[nm]
+            for attr in o.calculated_attributes:
+                v = getattr(o, attr)
+                for key, val in (list(v.items()) if isinstance(v, dict) else [(None, v)]):
+                    if isinstance(val, ExplainableHourlyQuantities):
+                        out.append((f"{nm}.{attr}" + (f"[{getattr(key, 'name', key)}]" if key is not None else ""), val))
+        return out
+
+    def cells(val):
+        # physical values (an in-place unit conversion by a plot is not a change)
+        return [float(x) for _, x in sorted(V.phys(val)[1].items(), key=lambda kv: str(kv[0]))]
+    s0 = S.snapshot(live)
+    sim = None
+    if with_simulation:
+        first = min(V.utc_key(ts) for ts in objs["up"].utc_hourly_usage_journey_starts.value.index)
+        sim = ModelingUpdate([[objs["srv"].power, SourceValue(450 * u.W)], [objs["job"].data_transferred, SourceValue(3 * u.MB)]],
+                             (first + timedelta(hours=1)).to_pydatetime())
+    twins = [(w, v, cells(v.simulation_twin)) for w, v in hourly_values()
+             if getattr(v, "simulation_twin", None) is not None and isinstance(v.simulation_twin, ExplainableHourlyQuantities)]
+    n_plots = 0
+    for w, v in hourly_values():
+        for cum in (False, True):
+            try:
+                v.plot(cumsum=cum)
+                n_plots += 1
+            except Exception as e:  # noqa
+                ctx.require(False, f"{w}: plot(cumsum={cum}) works", f"{type(e).__name__}: {str(e)[:120]}")
+            plt.close("all")
+    for w, v, before in twins:
+        after = cells(v.simulation_twin)
+        ctx.require(len(before) == len(after) and all(abs(a - b) <= 1e-12 * max(abs(a), abs(b)) for a, b in zip(before, after)),
+                    f"{w}: the simulated twin is unchanged by plotting", f"{before[:3]} -> {after[:3]}")
+        for cum in (False, True):
+            try:
+                v.simulation_twin.plot(cumsum=cum)
+            except Exception as e:  # noqa
+                ctx.require(False, f"{w}: plotting the simulated twin works", f"{type(e).__name__}: {str(e)[:120]}")
+            plt.close("all")
+    ctx.require(n_plots > 0, "hourly values were plotted", str(n_plots))
+    ctx.count("plots", n_plots)
+    S.compare_snapshots(ctx, s0, S.snapshot(live), "after plotting every hourly value", identity=False, values=True, graph=False,
+                        skip_attrs=("initial_total_energy_footprints_sum_over_period", "initial_total_fabrication_footprints_sum_over_period"))
+
+
+HARNESSES = {"fixed_point": h_fixed_point, "fixed_point_builders": h_fixed_point_builders, "plots": h_plots}
 
 
 def plan(tier, seed):
@@ -190,6 +258,8 @@ def plan(tier, seed):
     p.append(("fixed_point", dict(skeleton="TX", mode="each")))
     p.append(("fixed_point", dict(skeleton="TX", mode="reads", args={"shared": True})))
     p.append(("fixed_point", dict(skeleton="T1", mode="inputs")))
+    p.append(("plots", dict(skeleton="T1", with_simulation=True)))
+    p.append(("plots", dict(skeleton="T3", n=2, with_simulation=False)))
     from harness.c17 import BUILDER_CASES
     for i, (kind, choice) in enumerate(BUILDER_CASES):
         for mode in (("attrs", "reads") if tier == "quick" else ("each", "attrs", "reads")):
